@@ -113,11 +113,39 @@ func (c TestFam) Passes(s Src) bool {
 // RuntimeSig is everything the statement lists as a runtime input of the test: test command, test binary (its source),
 // data files (content, and names inside a data directory), runtime dependencies (the library's source).
 func (c TestFam) RuntimeSig(s Src) string {
-	sig := "cmd=" + c.TestCmd(s) + "|bin=" + s["bin"] + "|data=" + s["data"] + "|lib=" + s["lib"]
+	sig := "test_cmd=" + s["tcmd"] + "|test-binary=" + s["bin"] + "|data-file=" + s["data"] + "|dep-output=" + s["lib"]
 	if c.WithDir {
-		sig += "|dname=" + s["dname"]
+		sig += "|name-in-data-dir=" + s["dname"]
 	}
 	return sig
+}
+
+// SigDiff names the components in which two runtime signatures differ.
+func SigDiff(a, b string) []string {
+	pa, pb := strings.Split(a, "|"), strings.Split(b, "|")
+	var d []string
+	for i := range pa {
+		if i >= len(pb) || pa[i] != pb[i] {
+			d = append(d, strings.SplitN(pa[i], "=", 2)[0])
+		}
+	}
+	return d
+}
+
+// NearestDiff returns the smallest set of components in which sig differs from any signature of set ("none" if the set is empty).
+func NearestDiff(sig string, set map[string]bool) string {
+	best := ""
+	bestN := -1
+	for _, k := range SortedNames(set) {
+		d := SigDiff(sig, k)
+		if bestN < 0 || len(d) < bestN {
+			best, bestN = strings.Join(d, ","), len(d)
+		}
+	}
+	if bestN < 0 {
+		return "none"
+	}
+	return best
 }
 
 // ShareOracle makes e use o's memo of clean builds (same family, same oracle configuration).
